@@ -740,6 +740,19 @@ example : (collectNames 3 (exHost.setNodes (spliceNodes exHost.nodes 2 [2, 1]
   applyAt_defs_once 2 exHost [exNeg, exOther] [exAbs] _ exRelu [2, 1] rfl (by decide) (by decide) (by decide)
     (by decide) (by decide) (by decide) (by decide) (by decide) (by decide)
 
+/-! ## `commute=True` -/
+
+/-- Every variant `RewriteRule.commute` produces differs from the rule in the pattern's operand
+order only: name, `remove_nodes`, `as_function`, the condition and the replacement are the rule's
+(a variant that lost `as_function` would splice a call to a function nobody creates), and the
+pattern has the same outputs, root and number of nodes. -/
+theorem commuteRule_keeps_options (r r' : Rule) (h : r' ∈ commuteRule r) :
+    r'.name = r.name ∧ r'.removeNodes = r.removeNodes ∧ r'.asFunction = r.asFunction ∧
+    r'.guardTag = r.guardTag ∧ r'.repl = r.repl ∧ r'.pat.outputs = r.pat.outputs ∧ r'.pat.root = r.pat.root := by
+  unfold commuteRule at h
+  obtain ⟨sw, _, rfl⟩ := List.mem_map.mp h
+  exact ⟨rfl, rfl, rfl, rfl, rfl, rfl, rfl⟩
+
 /-! ## Signature -/
 
 /-- All values the replacement returns are new values (fresh `%…` names). -/
@@ -1289,5 +1302,10 @@ theorem pass_terminates_full_refuted :
         isFuelErr (applyToModel rules (10 * stepBound rules m.graph) m) = false) := by
   intro h
   exact absurd (h [d2Rule] { opsets := [("", 18)], graph := d2Host, funcs := [] }) (by decide +kernel)
+
+/-- `Add(x, y)` has two variants (as given, operands swapped); a pattern without commutative binary
+nodes has exactly one, the rule itself -/
+example : (commuteRule d2Rule).map (·.pat.nodes.map (·.inputs)) = [[[.var 0, .var 1]], [[.var 1, .var 0]]] ∧
+    (commuteRule d4Rule).map (·.pat.nodes.map (·.inputs)) = [d4Rule.pat.nodes.map (·.inputs)] := by decide
 
 end OV.Props.C07
